@@ -15,6 +15,7 @@ var harnesses = map[string]func(){
 	"C18NoInput":      C18NoInput,
 	"C18Generate":     C18Generate,
 	"C15Run":          C15Run,
+	"C03MarkerLayout": C03MarkerLayout,
 	"C12LoaderHook":   C12LoaderHook,
 	"T0Pipeline":      T0Pipeline,
 	"C14BadNotation":  C14BadNotation,
